@@ -247,7 +247,40 @@ class Gen:
 
 	STR_BODIES = ['a', 'b', 'abc', '', 'x y', '12', '7', '1.5', ' 42 ', '-3', '+4', '1_0', '0x1f', 'nan', 'inf', '1e3', 'A-b', 'ab' * 3, '0', '.', 'é', '1 2']
 
+	def boundary_str(self) -> tuple[str, Any]:
+		# A string token whose body has length 0, 1 or 2, in every quoting form the evaluator has to tell apart: single and double quotes,
+		# both triple-quoted forms, and the prefixed spellings of each (r R u f b rb Rb ...). The empty triple-quoted token (six quote
+		# characters) looks like a plain token with four quotes inside; a one-character body may be the OTHER quote character.
+		rng = self.rng
+		q = rng.choice(["'", '"'])
+		other = '"' if q == "'" else "'"
+		body = rng.choice(['', '', '', 'a', '7', ' ', other, '-', 'ab', 'a' + other, other + 'a', '1_', '0'])
+		form = rng.choice(['plain', 'plain', 'triple', 'triple', 'prefix', 'prefix-triple'])
+		if form in ('triple', 'prefix-triple') and body.endswith(q):
+			body = body[:-1]
+		prefix = ''
+		if form.startswith('prefix'):
+			if self.on('prefix', 1.0):
+				self.feats.add('prefix')
+				prefix = rng.choice(['r', 'R', 'u', 'U', 'f', 'F', 'b', 'B', 'rb', 'Rb', 'br', 'rf', 'fr'])
+			form = 'triple' if form == 'prefix-triple' else 'plain'
+		if form == 'triple' and not prefix:
+			if self.on('triple', 1.0):
+				self.feats.add('triple')
+			else:
+				form = 'plain'
+		qq = q * 3 if form == 'triple' else q
+		text = f'{prefix}{qq}{body}{qq}'
+		try:
+			with warnings.catch_warnings():
+				warnings.simplefilter('ignore')
+				return text, eval(text, {'__builtins__': {}})  # noqa: S307 - steering value of a generated literal
+		except Exception as e:  # noqa: BLE001 - e.g. an f-string body CPython rejects
+			return text, e
+
 	def lit_str(self) -> tuple[str, Any]:
+		if self.rng.random() < 0.18:
+			return self.boundary_str()
 		body = self.rng.choice(self.STR_BODIES)
 		q = self.rng.choice(["'", '"'])
 		if self.rng.random() < 0.1:
